@@ -597,3 +597,77 @@ pub fn library(rng: &mut Rng, depth: u32) -> Vec<(String, Vec<Stmt>)> {
     }
     lib
 }
+
+/// Include CHAINS of depth 2-4 (c0 includes c1 includes ... cd).  Every includer may define a
+/// loop variable (own name n<k> or the shared name `n`: shadowing at intermediate levels), a
+/// per-iteration `set li<k> = loop.index`, `set` variables (s<k>, and the shared `lab`, always
+/// set by c0, re-set by some intermediate levels inside or outside their loop), `set_global`
+/// variables (g<k>, shared `gg`); the include sits directly in the body, in a filter section
+/// or in a set block, inside the loop.  Every included template reads ALL names any includer
+/// at any distance may have defined (through `default`, and `lab` bare: it is always defined
+/// by the non-adjacent includer c0).
+pub fn chain_library(rng: &mut Rng) -> Vec<(String, Vec<Stmt>)> {
+    let d = 2 + rng.below(3);
+    let names: Vec<String> = (0..=d).map(|k| format!("c{k}.{}", if rng.chance(1, 2) { "html" } else { "txt" })).collect();
+    let dflt = |n: &str| Stmt::Print(Expr::Filter(Box::new(var(n)), "default", vec![("value".into(), cstr("-"))]));
+    let multi_level = rng.below(d); // the one level allowed to iterate several items
+    let mut lib = Vec::new();
+    for k in 0..=d {
+        let mut b: Vec<Stmt> = Vec::new();
+        if k > 0 {
+            b.push(Stmt::Text("<".into()));
+            b.push(Stmt::Print(var("lab")));
+            for j in 0..k {
+                for n in [format!("n{j}"), format!("li{j}"), format!("s{j}"), format!("g{j}")] {
+                    if rng.chance(3, 4) {
+                        b.push(dflt(&n));
+                    }
+                }
+            }
+            b.push(dflt("n"));
+            b.push(dflt("gg"));
+            b.push(Stmt::Text(">".into()));
+        }
+        if k < d {
+            if k == 0 || rng.chance(1, 3) {
+                b.push(Stmt::Assign(false, "lab".into(), cstr(&format!("L{k}"))));
+            }
+            if rng.chance(1, 2) {
+                b.push(Stmt::Assign(false, format!("s{k}"), cstr(&format!("S{k}"))));
+            }
+            if rng.chance(1, 2) {
+                b.push(Stmt::Assign(true, format!("g{k}"), cstr(&format!("G{k}"))));
+            }
+            let inc = Stmt::Include(names[k + 1].clone());
+            let inc = match rng.below(4) {
+                0 => vec![Stmt::Filter("upper", vec![], vec![inc])],
+                1 => vec![Stmt::SetBlock(false, "acc".into(), vec![inc], vec![]), Stmt::Print(var("acc"))],
+                _ => vec![inc],
+            };
+            if rng.chance(3, 4) {
+                let val = if rng.chance(1, 3) { "n".to_string() } else { format!("n{k}") };
+                let target = if k == multi_level { *rng.pick(&["arr", "s", "rows"]) } else { *rng.pick(&["one", "m1"]) };
+                let target = if target == "rows" { var("nest") } else { var(target) };
+                let mut lb = vec![Stmt::Assign(false, format!("li{k}"), Expr::Loop("index"))];
+                if rng.chance(1, 3) {
+                    lb.push(Stmt::Assign(false, "lab".into(), cstr(&format!("l{k}"))));
+                }
+                if rng.chance(1, 3) {
+                    lb.push(Stmt::Assign(true, "gg".into(), Expr::Loop("index0")));
+                }
+                lb.push(Stmt::Text("[".into()));
+                lb.extend(inc);
+                lb.push(Stmt::Text("]".into()));
+                b.push(Stmt::For { key: None, val, target, body: lb, els: vec![] });
+            } else {
+                b.extend(inc);
+            }
+            if k > 0 && rng.chance(1, 2) {
+                // what the nested include assigned is not visible here
+                b.push(dflt(&format!("s{}", k + 1)));
+            }
+        }
+        lib.push((names[k].clone(), b));
+    }
+    lib
+}
